@@ -2063,6 +2063,7 @@ func runOn(sh *sharedTC, scn *scenario, seed int64, rpcID string) (obs observati
 	if bp, ok := rn.bgPanic.Load().(string); ok && res.panicVal == nil {
 		res.panicVal = bp
 	}
+	obs.Ret.Stuck = res.stuck
 	obs.Ret.Panic = res.panicVal != nil
 	if res.panicVal != nil {
 		obs.Ret.PanicV = fmt.Sprint(res.panicVal)
